@@ -1039,6 +1039,9 @@ class NetCDFRead(IORead):
             # container variable names.
             # --------------------------------------------------------
             "geometries": {},
+            # The ragged array compression of each geometry node
+            # coordinate variable, keyed by its netCDF variable name
+            "node_coordinates_compression": {},
             # Map data variables to their geometry variable names
             "variable_geometry": {},
             "do_not_create_field": set(),
@@ -2967,6 +2970,20 @@ class NetCDFRead(IORead):
         g["compression"][node_dimension].setdefault(
             "netCDF_variables", set()
         ).update(parsed_node_coordinates)
+
+        # Record the compression of these node coordinate variables
+        # separately, because the node coordinate variables of
+        # another geometry container may span the same netCDF node
+        # dimension, but are divided into cells and parts by their
+        # own node count and part node count variables.
+        c = g["compression"][node_dimension]
+        if part_node_count is None:
+            c = {"ragged_contiguous": c["ragged_contiguous"]}
+        else:
+            c = {"ragged_indexed_contiguous": c["ragged_indexed_contiguous"]}
+
+        for ncvar in parsed_node_coordinates:
+            g["node_coordinates_compression"][ncvar] = c
 
         # Do not attempt to create field constructs from netCDF node
         # coordinate variables
@@ -6618,6 +6635,11 @@ class NetCDFRead(IORead):
                     # geometries.
                     continue
 
+                # A geometry node coordinate variable is compressed
+                # by the count variables of its own geometry
+                # container
+                c = g["node_coordinates_compression"].get(ncvar, c)
+
                 if "gathered" in c:
                     # ------------------------------------------------
                     # Compression by gathering
@@ -7584,6 +7606,11 @@ class NetCDFRead(IORead):
                     # other variables For example, this sort of
                     # situation may arise with simple geometries.
                     continue
+
+                # A geometry node coordinate variable is compressed
+                # by the count variables of its own geometry
+                # container
+                c = g["node_coordinates_compression"].get(ncvar, c)
 
                 i = ncdimensions.index(ncdim)
 
